@@ -55,7 +55,7 @@ void h_parse_next_line(void) { struct CCsvStreamReader s; vvec_CValueMeta vals; 
   VERIF_ASSERT("C10", CCsvStreamReader_IsEnd___k(&s) == at_end, "IsEnd() is exact: true iff the document has no further character (as for the in-memory reader), wherever the chunk boundary lies");
   _Bool ret = CCsvStreamReader_ParseNextLine__rvvec_CValueMeta(&s, &vals);
   VERIF_ASSERT("C10,C20", __verif_exc == 0 || (__verif_exc == EXC_SerializationException && __verif_exc_code == SerializationErrorCode_UtfEncodingError), "the only failure of the line scanner is the decoder's UtfEncodingError");
-  VERIF_ASSERT("C10", __verif_exc != 0 || INV(&s), "every line re-establishes the class invariant: when the buffer is used up and no byte is left, the end of the stream is known - so IsEnd() stays exact for an input of ANY length (also an exact multiple of the chunk size)");
+  VERIF_ASSERT("C10,C09", __verif_exc != 0 || INV(&s), "every line re-establishes the class invariant: when the buffer is used up and no byte is left, the end of the stream is known - so IsEnd() stays exact for an input of ANY length (also an exact multiple of the chunk size)");
   VERIF_ASSERT("C10,C09", __verif_exc != 0 || (at_end ? (!ret && g_chunks == 0) : (ret && vals.n >= 1 && vals.inside)), "at the end of the document nothing is parsed; otherwise the line yields at least one value and every value lies inside the decoded buffer");
   VERIF_ASSERT("C10", __verif_exc != 0 || at_end || s.mDecodedBuffer.base + s.mCurrentPos >= logical0, "the scan position only moves forward in the decoded text");
   VERIF_CANARY(); }
